@@ -31,9 +31,33 @@ def parseHex40 (s : String) : Option Nat := if s.length = 40 then hexValAux s.to
 
 /-! ### contents, prophecies -/
 
+/-- claim symbols travel through the line protocol as they are when made of letters, digits, `.`, `/`, `-` only, and
+    as `%` followed by the hex of their bytes otherwise (quotes, commas, braces … would break the line format) -/
+def symSafe (c : Char) : Bool := c.isAlphanum || c == '.' || c == '/' || c == '-'
+
+def hexPair (n : Nat) : List Char := [hexChar (n / 16), hexChar (n % 16)]
+
+def encodeSym (s : String) : String :=
+  if !s.isEmpty && s.toList.all symSafe then s
+  else "%" ++ String.ofList (s.toList.flatMap (fun c => hexPair c.toNat))
+
+def decodeHexChars : List Char → Option (List Char)
+  | [] => some []
+  | [_] => none
+  | a :: b :: rest => do
+    let x ← hexDigit a
+    let y ← hexDigit b
+    let r ← decodeHexChars rest
+    pure (Char.ofNat (x * 16 + y) :: r)
+
+def decodeSym (s : String) : Option String :=
+  match s.toList with
+  | '%' :: rest => (decodeHexChars rest).map String.ofList
+  | _ => some s
+
 def showContent : Content → String
   | .empty => "-"
-  | .eth r a s t c => s!"{r}|{a}|{s}|{hex40 t}|{c}"
+  | .eth r a s t c => s!"{r}|{a}|{encodeSym s}|{hex40 t}|{c}"
 
 def parseContent (s : String) : Option Content :=
   if s == "-" then some .empty else
@@ -43,6 +67,7 @@ def parseContent (s : String) : Option Content :=
     let a ← a.toInt?
     let t ← parseHex40 t
     let c ← c.toNat?
+    let sym ← decodeSym sym
     pure (.eth r a sym t c)
   | _ => none
 
@@ -220,6 +245,7 @@ def parseMsg (kind : String) (t : List String) : Option Msg :=
     let r ← parseAcct r
     let a ← a.toInt?
     let ty ← ty.toNat?
+    let sym ← decodeSym sym
     pure (.claim ⟨v, ch, n, snd, r, a, sym, tok, ty, sp⟩)
   | "lock", t => (parsePeg t).map .lock
   | "burn", t => (parsePeg t).map .burn
@@ -271,6 +297,8 @@ def chk (pred : String) (m : List (String × String)) : Option Bool :=
     let ns ← get m "now"
     let now ← if ns == "-" then pure none else (parseProphecy ns).map some
     pure (Spec.C05.finalKept first now)
+  | "storebytes" => do
+    pure (Spec.C05.storeBytesSame (← get m "first") (← get m "now"))
   | "thr" => do
     let vals ← parseVals (← get m "vals")
     let wl ← parseNatList (← get m "wl") ","
@@ -302,6 +330,21 @@ def chk (pred : String) (m : List (String × String)) : Option Bool :=
     let pb ← (listOf (← get m "pb") "/").mapM parseProphecy
     let pa ← (listOf (← get m "pa") "/").mapM parseProphecy
     pure (Spec.C06.restartCarries pb pa (← get m "restb") (← get m "resta"))
+  | "creditmsg" => do
+    let vals ← parseVals (← get m "vals")
+    let wl ← parseNatList (← get m "wl") ","
+    let msgs ← (listOf (← get m "msgs") ",").mapM (fun e => do
+      let (v, c) := splitFirst e '='
+      let v ← v.toNat?
+      let c ← parseContent c
+      pure (v, c))
+    let bb ← parseBal (← get m "balb")
+    let ba ← parseBal (← get m "bala")
+    let sB ← parseSup (← get m "supb")
+    let sA ← parseSup (← get m "supa")
+    let crs := (Spec.C06.winners vals wl msgs).filterMap Spec.C06.creditOf
+    pure (Spec.C06.creditFromMessages vals wl msgs (balView bb) (balView ba) (supView sB) (supView sA)
+      (keysOf bb ba (crs.map (fun c => (c.1, c.2.1)))) (denomsOf sB sA (crs.map (·.2.1))))
   | "ledger" => do
     let sa := (parseStatus (← get m "sa")).getD .pending
     let final ← parseContent (← get m "final")
